@@ -36,8 +36,8 @@ func factsOf(m map[string]bool) facts {
 		ks = append(ks, k)
 	}
 	sort.Strings(ks)
-	if len(ks) > 8 {
-		ks = ks[len(ks)-8:]
+	if len(ks) > 24 {
+		ks = ks[len(ks)-24:]
 	}
 	var sb strings.Builder
 	for _, k := range ks {
@@ -147,6 +147,24 @@ func tracked(fn *ssa.Function) map[ssa.Value]bool {
 			}
 		}
 	}
+	// error cells of the enclosing function used by a closure
+	for _, fv := range fn.FreeVars {
+		root := cellRoot(fv)
+		if root == nil || fv.Referrers() == nil {
+			continue
+		}
+		t[root] = true
+		for _, rf := range *fv.Referrers() {
+			switch x := rf.(type) {
+			case *ssa.Store:
+				if x.Addr == ssa.Value(fv) {
+					t[strip(x.Val)] = true
+				}
+			case *ssa.UnOp:
+				t[x] = true
+			}
+		}
+	}
 	if len(t) == 0 {
 		t = nil
 	}
@@ -160,14 +178,65 @@ func errCell(v ssa.Value) *ssa.Alloc {
 	if !ok || u.Op != token.MUL {
 		return nil
 	}
-	a, ok := u.X.(*ssa.Alloc)
-	if !ok {
-		return nil
+	return cellRoot(u.X)
+}
+
+// cellRoot: the error cell an address denotes: a local Alloc of type *error, or, inside a closure, the enclosing
+// function's cell a free variable is bound to (an anonymous function has one MakeClosure site, so this is static).
+func cellRoot(addr ssa.Value) *ssa.Alloc {
+	for depth := 0; depth < 6; depth++ {
+		switch x := addr.(type) {
+		case *ssa.Alloc:
+			if pt, ok := x.Type().Underlying().(*types.Pointer); !ok || !isErrorType(pt.Elem()) {
+				return nil
+			}
+			return x
+		case *ssa.FreeVar:
+			if pt, ok := x.Type().Underlying().(*types.Pointer); !ok || !isErrorType(pt.Elem()) {
+				return nil
+			}
+			b := freeVarBinding(x)
+			if b == nil {
+				return nil
+			}
+			addr = b
+		default:
+			return nil
+		}
 	}
-	if pt, ok := a.Type().Underlying().(*types.Pointer); !ok || !isErrorType(pt.Elem()) {
-		return nil
+	return nil
+}
+
+var freeVarBindingCache = map[*ssa.FreeVar]ssa.Value{}
+
+func freeVarBinding(fv *ssa.FreeVar) ssa.Value {
+	if b, ok := freeVarBindingCache[fv]; ok {
+		return b
 	}
-	return a
+	var res ssa.Value
+	fn := fv.Parent()
+	idx := -1
+	for i, x := range fn.FreeVars {
+		if x == fv {
+			idx = i
+		}
+	}
+	n := 0
+	if p := fn.Parent(); p != nil && idx >= 0 {
+		for _, b := range p.Blocks {
+			for _, in := range b.Instrs {
+				if mc, ok := in.(*ssa.MakeClosure); ok && mc.Fn == ssa.Value(fn) && idx < len(mc.Bindings) {
+					res = mc.Bindings[idx]
+					n++
+				}
+			}
+		}
+	}
+	if n != 1 {
+		res = nil
+	}
+	freeVarBindingCache[fv] = res
+	return res
 }
 
 // known reports whether v is known nil (isNil=true) or known non-nil on this path.
@@ -222,7 +291,7 @@ func (f facts) afterEdge(b *ssa.BasicBlock, k int) facts {
 	succ := b.Succs[k]
 	tr := tracked(b.Parent())
 	if tr == nil {
-		return ""
+		return f // nothing of this function is tracked; what is known about the callers' values stays
 	}
 	var m map[string]bool
 	get := func() map[string]bool {
@@ -285,7 +354,7 @@ func (f facts) afterInstr(in ssa.Instruction) facts {
 	// stores to / loads from local error cells
 	switch x := in.(type) {
 	case *ssa.Store:
-		if a, ok := x.Addr.(*ssa.Alloc); ok && tracked(in.Parent())[a] {
+		if a := cellRoot(x.Addr); a != nil && tracked(in.Parent())[a] {
 			m := f.parse()
 			if kn, isNil := f.known(x.Val); kn {
 				m[valID(a)] = isNil
